@@ -421,13 +421,17 @@ fn render(root: &str, items: &[Item], decoy: bool) -> (String, Vec<(u32, u32)>) 
             }
             let fn_line = line_no(src);
             let g = if generics.is_empty() { String::new() } else { format!("<{}>", generics.join(", ")) };
+            let returns_out = !with_bencher && it.hint("ret") == "1";
             let body = if with_bencher {
                 format!("crate::sup::run_slot({slot_expr}, {show}, bencher)")
+            } else if returns_out {
+                format!("crate::sup::call_out({slot_expr}, {show})")
             } else {
                 format!("crate::sup::call({slot_expr}, {show})")
             };
             let abi = if it.hint("abi") == "C" { "extern \"C\" " } else { "" };
-            src.push_str(&format!("{ind}pub {abi}fn {}{g}({}) {{\n{ind}    {body}\n{ind}}}\n", it.raw, params.join(", ")));
+            let ret = if returns_out { " -> crate::sup::Out" } else { "" };
+            src.push_str(&format!("{ind}pub {abi}fn {}{g}({}){ret} {{\n{ind}    {body}\n{ind}}}\n", it.raw, params.join(", ")));
             if nested {
                 src.push_str(&format!("{outer}}}\n"));
             }
@@ -637,6 +641,10 @@ impl Gen<'_> {
             let clash = mods.iter().any(|m| strip(m) == strip(f));
             let choice = self.rng.below(10);
             hints.insert("fb".into(), if self.rng.chance(1, 4) { "0" } else { "1" }.into());
+            if hints.get("fb").map(|s| s.as_str()) == Some("0") && self.rng.chance(1, 2) {
+                // the function returns a value with a destructor
+                hints.insert("ret".into(), "1".into());
+            }
             if self.rng.chance(1, 8) {
                 hints.insert("nest".into(), "1".into());
             }
@@ -695,7 +703,7 @@ impl Gen<'_> {
                         0 | 1 => {
                             // the last but one: as many as an external const list may hold (20)
                             const TWENTY: &[&str] = &["0", "1", "2", "3", "4", "5", "6", "7", "8", "9", "10", "11", "12", "13", "14", "15", "16", "17", "18", "19"];
-                            let lists: [&[&str]; 6] = [&["1", "2", "4"], &["16", "4", "-1", "100"], &["0"], &["3", "20", "100"], TWENTY, &[]];
+                            let lists: [&[&str]; 6] = [&["1", "2", "4"], &["16", "4", "-1", "100"], &["0"], &["-5", "3", "-10", "0", "-1", "20"], TWENTY, &[]];
                             let pick = self.rng.below(if with_t { 12 } else { 10 }) as usize;
                             let l = if pick >= 10 { lists[5] } else if pick == 9 && !with_t { lists[4] } else { lists[pick % 4] };
                             let signed = l.iter().any(|x| x.starts_with('-'));
@@ -765,6 +773,19 @@ impl Gen<'_> {
     }
 }
 
+fn ret_slots(items: &[Item]) -> Vec<usize> {
+    let mut v = Vec::new();
+    let mut s = 0;
+    for it in items {
+        let n = it.slots();
+        if it.hint("fb") == "0" && it.hint("ret") == "1" {
+            v.extend(s..s + n);
+        }
+        s += n;
+    }
+    v
+}
+
 fn nb_slots(items: &[Item]) -> Vec<usize> {
     let mut v = Vec::new();
     let mut s = 0;
@@ -796,6 +817,7 @@ pub fn gen(rng: &mut Rng, n: usize) -> Vec<String> {
         let (_, lines) = render(&root, &items, decoy);
         let text: Vec<String> = items.iter().zip(&lines).map(|(it, l)| it.to_tokens(&file, l.0)).collect();
         let nb = nb_slots(&items);
+        let ro = ret_slots(&items);
         for _ in 0..per {
             let act = ["test", "test", "list", "terse", "terse", "bench", "bench", "listapi", "testapi"][rng.below(9) as usize];
             let bench_mode = act == "bench";
@@ -803,6 +825,7 @@ pub fn gen(rng: &mut Rng, n: usize) -> Vec<String> {
             cfg.push(format!("root={root}"));
             cfg.push(format!("decoy={}", decoy as u8));
             cfg.push(format!("nb={}", nb.iter().map(|x| x.to_string()).collect::<Vec<_>>().join(":")));
+            cfg.push(format!("ro={}", ro.iter().map(|x| x.to_string()).collect::<Vec<_>>().join(":")));
             if bench_mode && !cfg.iter().any(|c| c.starts_with("o.ss=")) {
                 cfg.push("o.ss=1".into());
             }
@@ -924,16 +947,19 @@ fn run_one(p: &Parsed<'_>, req: &str, lines: &[(u32, u32)]) -> String {
     let (obs, other) = collect(&out, &act);
     let mut reg = "-".to_string();
     let mut calls: Vec<String> = Vec::new();
+    let mut live = "-".to_string();
     for l in &other {
         if let Some(n) = l.strip_prefix("N ") {
             reg = n.to_string();
+        } else if let Some(v) = l.strip_prefix("V ") {
+            live = v.to_string();
         } else if l.starts_with("C ") {
             calls.push(l.replace(' ', ":"));
         }
     }
     let src_lines: Vec<String> = lines.iter().map(|(a, b)| format!("{a}-{b}")).collect();
     format!(
-        "N{reg} S{} K{} {obs}",
+        "N{reg} S{} V{live} K{} {obs}",
         if src_lines.is_empty() { "-".to_string() } else { src_lines.join(":") },
         if calls.is_empty() { "-".to_string() } else { calls.join(",") }
     )
